@@ -60,7 +60,7 @@ func (f *Font) IsStandardFont() bool {
 // 1. Use ToUnicode CMap if present (most accurate)
 // 2. Check for UTF-16 Byte Order Mark (BOM) - FEFF or FFFE
 // 3. Use font's Encoding property (standard encodings)
-// 4. Fall back to raw bytes as string
+// 4. Fall back to raw byte values (each byte taken as the code point of the same value)
 // All decoded strings are normalized to NFC for consistent embeddings
 func (f *Font) DecodeString(data []byte) string {
 	var decoded string
@@ -92,8 +92,14 @@ func (f *Font) DecodeString(data []byte) string {
 		return NormalizeUnicode(decoded)
 	}
 
-	// Priority 4: Fall back to raw bytes as string
-	decoded = string(data)
+	// Priority 4: Fall back to the raw byte values. Each byte becomes the code
+	// point of the same value (ISO 8859-1), so that the result is valid UTF-8
+	// even for bytes above 0x7F.
+	runes := make([]rune, len(data))
+	for i, b := range data {
+		runes[i] = rune(b)
+	}
+	decoded = string(runes)
 	return NormalizeUnicode(decoded)
 }
 
